@@ -187,6 +187,24 @@ func c03ConcBody(px *Proxy, sc c03ConcScenario, seed int64, x *explore.Exec) (*s
 }
 
 func c03Concurrent(c *Ctx) {
+	c03ConcurrentFor(c, "C03", c03ConcScenarios(c.Quick()), map[string]bool{"pkg/cookies": true, "pkg/encryption": true})
+}
+
+// c05ConcScenarios: two genuine logins completed at the same time with PKCE on — "exactly that verifier
+// is presented at redemption" also when another login's redemption is in flight (the provider checks
+// every verifier against the challenge of the code it comes with, so a swapped one fails the login).
+func c05ConcScenarios() []c03ConcScenario {
+	return []c03ConcScenario{
+		{PerRequest: false, PKCE: true, Reqs: [2]string{"gA", "gB"}},
+		{PerRequest: true, PKCE: true, Reqs: [2]string{"gA", "gB"}},
+		{PerRequest: false, PKCE: true, Reqs: [2]string{"fAB", "gA"}},
+	}
+}
+
+var c05ConcEvery = map[string]bool{"providers": true, "pkg/cookies": true}
+
+// c03ConcurrentFor explores the given callback pairs for property id.
+func c03ConcurrentFor(c *Ctx, id string, scs []c03ConcScenario, everyStatementOf map[string]bool) {
 	if os.Getenv("VERIF_WIDE") != "1" {
 		c.Info["concurrent_part"] = "skipped: the wide instrumentation did not build on this tree (see check.sh)"
 		c.Note("concurrent part skipped: no wide instrumentation")
@@ -196,7 +214,7 @@ func c03Concurrent(c *Ctx) {
 	hooks := vatomic.Hooks
 	vatomic.Hooks = false
 	vrt.Enabled = true
-	vrt.AllStatements = map[string]bool{"pkg/cookies": true, "pkg/encryption": true}
+	vrt.AllStatements = everyStatementOf
 	defer func() { vrt.Enabled = false; vatomic.Hooks = hooks; vrt.AllStatements = nil }()
 	bound := 1
 	if !c.Quick() {
@@ -205,7 +223,6 @@ func c03Concurrent(c *Ctx) {
 	up := world.NewUpstream("c03conc")
 	defer up.Close()
 	world.NewIdP()
-	scs := c03ConcScenarios(c.Quick())
 	c.Info["concurrent_part"] = map[string]any{"scenarios": len(scs), "preemption_bound": bound, "instrumentation": "wide"}
 	for si, sc := range scs {
 		if c.Expired() {
@@ -214,7 +231,7 @@ func c03Concurrent(c *Ctx) {
 		sc := sc
 		px, err := c03ConcProxy(up, sc)
 		if err != nil {
-			c.Error("C03 concurrent %+v: %v", sc, err)
+			c.Error(id+" concurrent %+v: %v", sc, err)
 			continue
 		}
 		var seq [2][2]string
@@ -222,7 +239,7 @@ func c03Concurrent(c *Ctx) {
 		for first := 0; first < 2; first++ {
 			o, serr := c03ConcSequential(px, sc, c.Seed, first)
 			if serr != "" {
-				c.Error("C03 concurrent %+v: sequential reference: %s", sc, serr)
+				c.Error(id+" concurrent %+v: sequential reference: %s", sc, serr)
 				bad = true
 			}
 			seq[first] = o
@@ -235,13 +252,13 @@ func c03Concurrent(c *Ctx) {
 			for first := 0; first < 2; first++ {
 				forged := strings.HasPrefix(name, "f")
 				if forged && !strings.Contains(seq[first][i], "session-cookie=false then-user=nobody") {
-					c.Error("C03 concurrent %+v: sequential reference gives the forged callback %s: %s (the sequential part judges this)", sc, name, seq[first][i])
+					c.Error(id+" concurrent %+v: sequential reference gives the forged callback %s: %s (the sequential part judges this)", sc, name, seq[first][i])
 					bad = true
 				}
 			}
 		}
 		if sc.Reqs == [2]string{"gA", "gB"} && !(strings.Contains(seq[0][0], "then-user=alice@") && strings.Contains(seq[0][1], "then-user=bob@")) {
-			c.Error("C03 concurrent %+v: genuine callbacks do not complete sequentially: %v", sc, seq[0])
+			c.Error(id+" concurrent %+v: genuine callbacks do not complete sequentially: %v", sc, seq[0])
 			bad = true
 		}
 		if bad {
@@ -276,7 +293,7 @@ func c03Concurrent(c *Ctx) {
 					return
 				}
 				if strings.HasPrefix(berr, "HARNESS") {
-					c.Error("C03 concurrent %+v: %s", sc, berr)
+					c.Error(id+" concurrent %+v: %s", sc, berr)
 					return
 				}
 				c.Inc("evaluations")
@@ -288,14 +305,14 @@ func c03Concurrent(c *Ctx) {
 				c.Distinct("distinct_nontrivial", fmt.Sprintf("conc|%d|%s", si, order))
 				c.Distinct("conc_distinct_outcome_pairs", fmt.Sprintf("%d|%v", si, o))
 				rp := c03ConcReplay{Kind: "concurrent-callbacks", Stmt: len(vrt.AllStatements) > 0, Scenario: sc, Choices: x.Choices(), Order: order}
-				what, key := berr, "C03/concurrent/"
+				what, key := berr, id+"/concurrent/"
 				if berr != "" {
 					key += strings.Fields(berr)[0]
 				} else if what = check(o); what != "" {
 					key += "not-linearizable"
 					for i, name := range sc.Reqs {
 						if strings.HasPrefix(name, "f") && !strings.Contains(o[i], "session-cookie=false then-user=nobody") {
-							key = "C03/concurrent/session-for-other-login-state"
+							key = id + "/concurrent/session-for-other-login-state"
 						}
 					}
 				}
@@ -322,12 +339,16 @@ func c03Concurrent(c *Ctx) {
 }
 
 func c03ConcReplayOne(c *Ctx, rp c03ConcReplay) string {
+	return c03ConcReplayFor(c, "C03", rp, map[string]bool{"pkg/cookies": true, "pkg/encryption": true})
+}
+
+func c03ConcReplayFor(c *Ctx, id string, rp c03ConcReplay, everyStatementOf map[string]bool) string {
 	if os.Getenv("VERIF_WIDE") != "1" {
 		return "the wide instrumentation did not build: the schedule cannot be replayed"
 	}
 	vatomic.Hooks = false
 	vrt.Enabled = true
-	vrt.AllStatements = map[string]bool{"pkg/cookies": true, "pkg/encryption": true}
+	vrt.AllStatements = everyStatementOf
 	if !rp.Stmt {
 		vrt.AllStatements = nil
 	}
@@ -345,9 +366,9 @@ func c03ConcReplayOne(c *Ctx, rp c03ConcReplay) string {
 	}
 	out, o, berr := c03ConcBody(px, rp.Scenario, c.Seed, explore.Replay(rp.Choices, nil))
 	if berr != "" {
-		c.Violate("C03/concurrent/"+strings.Fields(berr)[0], berr, 1, rp)
+		c.Violate(id+"/concurrent/"+strings.Fields(berr)[0], berr, 1, rp)
 	} else if o != seq[0] && o != seq[1] {
-		c.Violate("C03/concurrent/not-linearizable", fmt.Sprintf("answers %v; sequential orders give %v or %v", o, seq[0], seq[1]), 1, rp)
+		c.Violate(id+"/concurrent/not-linearizable", fmt.Sprintf("answers %v; sequential orders give %v or %v", o, seq[0], seq[1]), 1, rp)
 	}
 	return fmt.Sprintf("order %s answers %v; sequential: %v | %v", sched.DescribeOrder(out.Order), o, seq[0], seq[1])
 }
